@@ -401,6 +401,11 @@ struct Sig {
     multi_uspace: bool, // F18: a """ string line ending in a Unicode space other than ' ', tab, CR
     hole_string: bool,  // F16: a string literal / string pattern nested inside an interpolation hole
     tail_block: bool,   // F19: a non-final chain term that is a block ending in a tail call
+    multi_pattern: bool,      // F23: a """ string *pattern*
+    lower_tuple_type: bool,   // F24: a tuple type named by a lower-case type name: `'e[...]`
+    paren_partial_type: bool, // F25: a type pattern that is a partial tuple type, e.g. `((j: 't))`
+    spawn_rich_function: bool, // F26: spawn of a function with type parameters / return type / no body
+    wrap_binding: bool, // F27: a branch of a multi-branch block whose body is one chain that binds/matches
 }
 fn unprotected_space(c: char) -> bool {
     c.is_whitespace() && c != ' ' && c != '\t' && c != '\r' && c != '\n'
@@ -439,6 +444,43 @@ fn ends_in_tail(t: &Term) -> bool {
         _ => false,
     }
 }
+
+fn sig_type(t: &Type, sig: &mut Sig) {
+    match t {
+        Type::Tuple(tt) => {
+            if tt.name.as_ref().is_some_and(|n| n.chars().next().is_some_and(|c| c.is_ascii_lowercase())) {
+                sig.lower_tuple_type = true;
+            }
+            for f in &tt.fields {
+                match f {
+                    FieldType::Field { type_def, .. } => sig_type(type_def, sig),
+                    FieldType::Spread { type_arguments, .. } => type_arguments.iter().for_each(|t| sig_type(t, sig)),
+                }
+            }
+        }
+        Type::Function(f) => {
+            sig_type(&f.input, sig);
+            sig_type(&f.output, sig);
+        }
+        Type::Union(u) => u.types.iter().for_each(|t| sig_type(t, sig)),
+        Type::Intersection(ts) => ts.iter().for_each(|t| sig_type(t, sig)),
+        Type::Identifier { arguments, .. } | Type::ModuleType { arguments, .. } | Type::SelfDefault { arguments } => {
+            arguments.iter().for_each(|t| sig_type(t, sig))
+        }
+        Type::Process(p) => {
+            if let Some(t) = &p.receive_type {
+                sig_type(t, sig)
+            }
+            if let Some(t) = &p.return_type {
+                sig_type(t, sig)
+            }
+        }
+        _ => {}
+    }
+}
+fn chain_binds(c: &Chain) -> bool {
+    c.match_pattern.is_some() || c.terms.iter().any(|t| matches!(t, Term::Match(_)))
+}
 fn sig_match(m: &Match, in_hole: bool, sig: &mut Sig) {
     match m {
         Match::String(style, b) => {
@@ -446,9 +488,17 @@ fn sig_match(m: &Match, in_hole: bool, sig: &mut Sig) {
                 sig.hole_string = true;
             }
             if *style == StringStyle::Multi {
+                sig.multi_pattern = true;
                 sig_multi_text(b, sig);
             }
         }
+        Match::Type(t) => {
+            if matches!(t, Type::Tuple(tt) if tt.is_partial) {
+                sig.paren_partial_type = true;
+            }
+            sig_type(t, sig);
+        }
+        Match::As(t, _, _) => sig_type(t, sig),
         Match::Tuple(t) => t.fields.iter().for_each(|f| sig_match(&f.pattern, in_hole, sig)),
         Match::Partial(p) => p.fields.iter().for_each(|f| {
             if let Some(m) = &f.pattern {
@@ -472,6 +522,16 @@ fn sig_chain(c: &Chain, in_hole: bool, sig: &mut Sig) {
     }
 }
 fn sig_expression(e: &Expression, in_hole: bool, sig: &mut Sig) {
+    if e.branches.len() > 1 {
+        for b in &e.branches {
+            let body = b.consequence.as_ref().unwrap_or(&b.condition);
+            if let [c] = body.chains.as_slice() {
+                if chain_binds(c) {
+                    sig.wrap_binding = true;
+                }
+            }
+        }
+    }
     for b in &e.branches {
         b.condition.chains.iter().for_each(|c| sig_chain(c, in_hole, sig));
         if let Some(k) = &b.consequence {
@@ -519,11 +579,24 @@ fn sig_term(t: &Term, in_hole: bool, sig: &mut Sig) {
         }),
         Term::Block(e) => sig_expression(e, in_hole, sig),
         Term::Function(f) => {
+            if let Some(t) = &f.parameter_type {
+                sig_type(t, sig)
+            }
+            if let Some(t) = &f.return_type {
+                sig_type(t, sig)
+            }
             if let Some(b) = &f.body {
                 sig_expression(b, in_hole, sig)
             }
         }
-        Term::Spawn(inner, _) => sig_term(inner, in_hole, sig),
+        Term::Spawn(inner, _) => {
+            if let Term::Function(f) = &**inner {
+                if !f.type_parameters.is_empty() || f.return_type.is_some() || f.body.is_none() {
+                    sig.spawn_rich_function = true;
+                }
+            }
+            sig_term(inner, in_hole, sig)
+        }
         Term::Select(Some(cs), _) => cs.iter().for_each(|c| sig_chain(c, in_hole, sig)),
         _ => {}
     }
@@ -531,8 +604,9 @@ fn sig_term(t: &Term, in_hole: bool, sig: &mut Sig) {
 fn signature(p: &Program) -> Sig {
     let mut sig = Sig::default();
     for s in &p.statements {
-        if let Statement::Expression(seq) = s {
-            seq.chains.iter().for_each(|c| sig_chain(c, false, &mut sig));
+        match s {
+            Statement::Expression(seq) => seq.chains.iter().for_each(|c| sig_chain(c, false, &mut sig)),
+            Statement::TypeAlias { type_definition, .. } => sig_type(type_definition, &mut sig),
         }
     }
     sig
@@ -596,7 +670,19 @@ fn e2e(src: &str, with_out: bool) -> String {
                 Err(loc) => return format!("(panic {} format2)", quote(&loc)),
                 Ok(o) => o,
             };
-            fields.push(format!("(idem {})", if out2 == out1 { "ok" } else { "diff" }));
+            let squash = |t: &str| -> String {
+                t.replace("~>", "").chars().filter(|c| !c.is_whitespace() && *c != ',' && *c != '|').collect()
+            };
+            fields.push(format!(
+                "(idem {})",
+                if out2 == out1 {
+                    "ok"
+                } else if squash(&out2) == squash(&out1) {
+                    "layout"
+                } else {
+                    "content"
+                }
+            ));
             let same_ast = match guarded(move || canonical(ast) == canonical(ast2)) {
                 Err(loc) => return format!("(panic {} normalize)", quote(&loc)),
                 Ok(b) => b,
@@ -635,9 +721,50 @@ fn e2e(src: &str, with_out: bool) -> String {
     if comment_in_hole {
         sigs.push("hole-comment");
     }
+    if sig.multi_pattern {
+        sigs.push("multi-pattern");
+    }
+    if sig.lower_tuple_type {
+        sigs.push("lower-tuple-type");
+    }
+    if sig.paren_partial_type {
+        sigs.push("partial-type-pattern");
+    }
+    if sig.spawn_rich_function {
+        sigs.push("spawn-rich-function");
+    }
+    if sig.wrap_binding {
+        sigs.push("wrap-binding");
+    }
+    {
+        // a blank (whitespace-only) line anywhere, incl. the first line (F20)
+        let norm = src.replace("\r\n", "\n");
+        if norm.split('\n').rev().skip(1).any(|l| l.trim().is_empty()) {
+            sigs.push("blank-line");
+        }
+    }
+    if c_in.len() >= 2 {
+        sigs.push("two-comments");
+    }
     fields.push(format!("(sig {})", sigs.join(" ")));
     let c_out = scan_comments(&out1);
-    fields.push(format!("(comments {})", if c_in == c_out { "ok" } else { "diff" }));
+    let ckind = if c_in == c_out {
+        "ok"
+    } else {
+        let (mut a, mut b) = (c_in.clone(), c_out.clone());
+        a.sort();
+        b.sort();
+        if a == b {
+            "reordered"
+        } else if c_in.join(" ") == c_out.join(" ") {
+            "merged"
+        } else if c_out.len() < c_in.len() {
+            "lost"
+        } else {
+            "changed"
+        }
+    };
+    fields.push(format!("(comments {})", ckind));
     fields.push(format!("(ncomments {})", c_in.len()));
     let maxline = out1.lines().map(|x| x.chars().count()).max().unwrap_or(0);
     fields.push(format!("(maxline {})", maxline));
